@@ -16,11 +16,35 @@ RULE = ('sessions aimed at the relay decision: relayclients / relayclients6 abse
         'multiple of the record size, with an invalid prefix length, unreadable; IPv4-mapped and IPv6 clients; remote recipients before and after local ones, '
         'repeated after an error, across RSET and several transactions; AUTH PLAIN attempts (right and wrong password, malformed, unknown mechanism, backend crash, '
         'repeated, inside a transaction, with and without a configured backend) mixed with HELO/EHLO/RSET and remote recipients; plus the general session histories. non-trivial = a remote recipient was attempted '
-        'and a DATA was accepted, or a hand-off happened; distinct by case text')
-TRUSTED_BASE = TRUSTED_COMMON
+        'and a DATA was accepted, or a hand-off happened; distinct by case text. '
+        'Engine tlsverify (unit: tls_verify / tls_check_cert / is_authenticated with OpenSSL and the file system as scripted oracles): sequences of 1-6 calls, '
+        'each the all-succeeds configuration with 0-3 oracles turned (no TLS, AUTH name set, relay list absent/listed/error, tlsclients unreadable with several errno '
+        'values / absent / list, CA file, session id context, rehandshake ok / ETIMEDOUT / EPROTO / other, verification result, no certificate, strdup failure, '
+        'net_writen failure); subject names aimed at the comparison: listed emailAddress or commonName, listed name + NUL + suffix, NUL first / last / inside at equal '
+        'length, proper prefix, one octet more, other case, unlisted emailAddress in front of a listed commonName, empty emailAddress, two emailAddress entries, '
+        'other attribute types, entries of tlsclients that are prefixes of each other; start states relayclient 0/1/2/3, ssl_verified 0/1; non-trivial there = '
+        'the certificate was looked at in a sequence of several calls, or a call was entitled by certificate')
+TRUSTED_BASE = TRUSTED_COMMON + [
+    'engine tlsverify: hand-written model coq/Model/TlsVerify.v (tls_verify, tls_check_cert, tls_out, is_authenticated, is_authenticated_client), tied to the C by '
+    'harness/tlsverify_h.c: qsmtpd/starttls.c and qsmtpd/commands.c #included unchanged in one translation unit, real libcrypto for the X509 name / ASN1 string '
+    'functions on a certificate built from the case, real SSL object; scripted: openat, lookupipbl, loadlistfd, SSL_load_client_CA_file, '
+    'SSL_set_session_id_context, ssl_timeoutrehandshake, SSL_get_verify_result, SSL_get_peer_certificate, strdup, net_writen, dieerror (longjmp); compared per '
+    'call: result, relayclient, ssl_verified, xmitstat.tlsclient, order of the oracle calls',
+    'translator tools/translators/tlsverify.py: structure of tls_verify / tls_check_cert / tls_out / is_authenticated / is_authenticated_client checked by regular '
+    'expressions (a change is a translator error), emitted: NID order, success value of SSL_set_session_id_context, X509_V_OK (system header), EDONE, '
+    'ETIMEDOUT / EPROTO / ENOMEM (python errno of the build machine)',
+    'ocaml/tlsverify_driver.ml (case parsing, mapping of the relay-list scenario octet to the value of lookupipbl_name, printing)',
+]
 ASSUMPTIONS = ASSUMPTIONS_COMMON + [
     'the relay list lookup itself (check_ipbl_file / ip4_matchnet) is property C16; here its outcome is an oracle, instantiated per configuration',
-    'SMTP AUTH and TLS client certificates as further entitlements are not exercised (no backend / no certificate in the harness): partial for those two disjuncts',
+    'engine session: TLS client certificates are not exercised there (no TLS in the whole-program harness); they are the subject of engine tlsverify',
+    'engine tlsverify: OpenSSL is an oracle - that X509_V_OK means "the chain verifies against clientca.pem (and the CRL)" is OpenSSL\'s business together with '
+    'tls_init() (SSL_CTX_load_verify_locations(CLIENTCA), verify_callback accepting every chain so that only SSL_get_verify_result() decides); every ASN1 string '
+    'OpenSSL hands out has a NUL octet behind its data (ASN1_STRING_set; the harness uses real ASN1 strings); net_writen() returns 0 or -errno, never a positive '
+    'value (hypothesis netw_ok of the theorems, cases violating it are outside the precondition); errno is not negative (type N in the model); loadlistfd() '
+    'returns C strings (its own correctness is C16/C20); the session model does not contain this stage, so the composition "RCPT TO 2xx for a remote address '
+    'implies relay list or AUTH or certificate" is the conjunction of C01_remote_rcpt_needs_relay (stated for sessions without TLS) and the C01t theorems about '
+    'is_authenticated(), not one theorem',
 ]
 LEVEL_TEXT = ('Coq theorems for all oracles and all client byte streams: a recipient outside rcpthosts gets 2xx only if the relay-list lookup returned a match '
               '(> 0) or an AUTH succeeded earlier on the same connection (a NAuth note, emitted with the 235 reply, stands before it; neither RSET, HELO/EHLO, '
@@ -29,9 +53,17 @@ LEVEL_TEXT = ('Coq theorems for all oracles and all client byte streams: a recip
               'appears only where a backend is configured and the mechanism handler reported success for that name; every hand-off envelope consists of '
               'accepted recipients only. Tied to the binary by whole-program runs with all kinds of relay list for v4 and v6 clients and AUTH PLAIN attempts '
               'against a checkpassword stand-in.')
-LEVEL_NOTE = ('Partial: the TLS client certificate entitlement (tls_verify) is outside the model; multi-line AUTH exchanges (LOGIN, PLAIN without initial '
+LEVEL_TEXT += (' Third entitlement (engine tlsverify, theorems C01t_*): for all oracle values, start states and call sequences tls_verify() > 0 only if TLS is '
+               'active, the check has not run on this connection, tlsclients gave a list, the CA file loaded, the session id context was set, the rehandshake '
+               'succeeded, the verification result is X509_V_OK, a certificate is present and its emailAddress (only without one: commonName) equals an entry of '
+               'tlsclients octet for octet (a name containing NUL never matches), and conversely (C01t_verify_complete); xmitstat.tlsclient is set exactly then; every '
+               'failing step fails closed; the check runs at most once per connection and a first negative result is never retried; is_authenticated() sets '
+               'relayclient to 1 only by relay list or entitling certificate and never together with an error result.')
+LEVEL_NOTE = ('Partial: the certificate stage is proved at unit level (tls_verify / is_authenticated with oracles) and is not part of the whole-session model, so '
+              'the session theorem and the certificate theorems are two layers; OpenSSL chain verification is an oracle; multi-line AUTH exchanges (LOGIN, PLAIN without initial '
               'response) end the modelled session (their logic is property C09); lookup internals are C16.')
-TECHNIQUE = 'Coq invariant proof over the session model (cached relay decision, authentication flag in step with the trace) as part of the simulation; whole-program differential run over relay-list kinds'
+TECHNIQUE = ('Coq invariant proof over the session model (cached relay decision, authentication flag in step with the trace) as part of the simulation; whole-program differential run over relay-list kinds; '
+             'literal oracle model of tls_verify/tls_check_cert/is_authenticated with case-analysis proofs and induction over call sequences, unit differential run against the real functions with scripted OpenSSL')
 DESIGN_REF = 'DESIGN.md section 5, C01'
 
 
@@ -128,11 +160,19 @@ def tv_call(rng, op=None):
     return R.hx(a) + ' ' + R.hx(b'\0'.join(listed)) + ' ' + tv_subject(tv_names(rng, listed, others))
 
 
+TV_FREE = R.hx(bytes([2] + [0] * 11)) + ' - -'       # end of a transaction (freedata)
+
+
 def tv_case(rng):
     init = bytes([rng.choice([0, 0, 0, 0, 2, 2, 1, 3]), rng.choice([0, 0, 0, 0, 0, 1])])
     n = rng.choice([1, 1, 2, 2, 3, 4, 6])
     same_op = rng.choice([None, None, 0, 1])
-    return '7c ' + R.hx(init) + ' ' + ' '.join(tv_call(rng, same_op) for _ in range(n))
+    calls = []
+    for _ in range(n):
+        if calls and rng.random() < 0.2:
+            calls.append(TV_FREE)
+        calls.append(tv_call(rng, same_op))
+    return '7c ' + R.hx(init) + ' ' + ' '.join(calls)
 
 
 _session_nontrivial, _session_distribution = nontrivial, distribution
